@@ -339,3 +339,91 @@ def run(fb, rep, tier):
         raise AnalysisBroken('R19.8 positive control (AppendCtl::add) did not fire')
     if k8 < 30:
         raise AnalysisBroken('R19.8: only %d add/append members found' % k8)
+
+
+    # ------------------------------------------------------------------ R19.9
+    # the arithmetic member operators of the vector classes (operator+=, -=, *=, /=) update their elements with the operator they are named after,
+    # or delegate to the element type's operator of the same name; operator-= may also add the negated argument.  Positive control.
+    rep.rule('R19.9', 'operator+= / -= / *= / /= of the vector classes update their elements with that same operator', floor=12)
+    k9 = 0
+    ctl9 = 0
+    for f in sorted(fb.funcs.values(), key=lambda g: (g.file, g.line, g.name)):
+        isctl = f.name.startswith('verif_ctl::')
+        m = re.search(r'operator([-+*/])=$', f.short or '')
+        if not m or not f.nodes or not f.cls or not (isctl or f.name.startswith('soplex::')):
+            continue
+        want = m.group(1) + '='
+        upd = []
+        for n in f.nodes:
+            if n.k == 'CompoundAssignOperator' and n.o in ('+=', '-=', '*=', '/='):
+                upd.append((n, n.o, False))
+            elif n.is_call() and n.short and re.search(r'^operator[-+*/]=$', n.short) and n.k == 'CXXOperatorCallExpr':
+                a = n.args()
+                neg = len(a) >= 2 and strip(a[-1]).k in ('UnaryOperator', 'CXXOperatorCallExpr') and (strip(a[-1]).o in ('-', 'pre-') or (strip(a[-1]).short or '') == 'operator-')
+                upd.append((n, n.short[len('operator'):], neg))
+        if not upd:
+            continue
+        wrong = [(n, o) for n, o, neg in upd if o != want and not (want == '-=' and o == '+=' and neg)]
+        if isctl:
+            ctl9 += 1 if wrong else 0
+            continue
+        k9 += 1
+        rep.check(not wrong, 'R19.9', '%s(%s)' % (f.name.replace('soplex::', '')[:70], ','.join(t for _, t in f.params)[:40]), f.where(), '%d element updates by %s' % (len(upd), want),
+                  '%s updates its elements with `%s` (line %d): the result is the other operation\'s' % (f.short, wrong[0][1] if wrong else '', wrong[0][0].l if wrong else 0))
+    if ctl9 < 1:
+        raise AnalysisBroken('R19.9 positive control (MinusCtl::operator-=) did not fire')
+    rep.ok('R19.9', 'control|MinusCtl::operator-=', 'units/controls.cpp', 'positive control fires', nontrivial=False)
+
+
+    # ------------------------------------------------------------------ R19.10
+    # DataSet / ClassSet keep two maps that are inverse to each other: thekey[n] is the key of the element with number n, and
+    # theitem[key.idx].info is the number of the element with that key.  Whenever a key is stored at number X (added, or moved there by a
+    # removal), the very next statement stores X as the number of that key's item.
+    rep.rule('R19.10', 'DataSet / ClassSet: storing a key at number X is followed by storing X as the number of that key\'s item', floor=6)
+    k10 = 0
+    for f in sorted(fb.funcs.values(), key=lambda g: (g.file, g.line, g.name)):
+        if not f.cls or not re.match(r'soplex::(DataSet|ClassSet)<', f.cls) or not f.nodes or f.mk in ('copyassign', 'copyctor') or f.short == 'operator=':
+            continue
+        for n in f.nodes:
+            if not (n.k in ('BinaryOperator', 'CXXOperatorCallExpr') and (n.o == '=' or (n.short or '') == 'operator=')):
+                continue
+            ks = n.kids if n.k == 'BinaryOperator' else n.args()
+            if len(ks) != 2:
+                continue
+            lhs = strip(ks[0])
+            if lhs.k != 'ArraySubscriptExpr' or render(strip(lhs.kids[0])) not in ('thekey', 'this->thekey'):
+                continue
+            X = render(strip(lhs.kids[1]))
+            V = render(strip(ks[1]))
+            par = f.parent_of(n)
+            while par is not None and par.k not in ('CompoundStmt',):
+                n_up = par
+                par = f.parent_of(par)
+                if par is not None and par.k == 'CompoundStmt':
+                    n = n_up
+            k10 += 1
+            key = '%s|thekey[%s] = %s' % (f.name.replace('soplex::', '')[:60], X, V[:30])
+            if par is None:
+                rep.unrec('R19.10', key, '%s:%d' % (f.file, lhs.l), 'the assignment is not a statement of a block')
+                continue
+            sibs = par.kids
+            idx = [i for i, x in enumerate(sibs) if x.i == n.i]
+            nxt = sibs[idx[0] + 1] if idx and idx[0] + 1 < len(sibs) else None
+            ok = False
+            why = 'no statement follows'
+            if nxt is not None:
+                t = strip(nxt)
+                tk = t.kids if t.k == 'BinaryOperator' else (t.args() if t.k == 'CXXOperatorCallExpr' else [])
+                if len(tk) == 2 and render(strip(tk[0])).endswith('.info') and 'theitem[' in render(strip(tk[0])):
+                    target = render(strip(tk[0]))
+                    val = render(strip(tk[1]))
+                    src = V if V.startswith('thekey[') else None
+                    okkey = ('theitem[%s.idx]' % V in target) or ('theitem[thekey[%s].idx]' % X in target) or (src is not None and 'theitem[%s.idx]' % src in target)
+                    ok = okkey and val == X
+                    why = 'the next statement is `%s = %s`' % (target[:50], val[:30])
+                else:
+                    why = 'the next statement is `%s`' % render(t)[:60]
+            rep.check(ok, 'R19.10', key, '%s:%d' % (f.file, lhs.l), 'followed by theitem[..].info = %s' % X,
+                      'the key is stored at number %s but %s: key -> number and number -> key are no longer inverse, number(key) returns the wrong element' % (X, why))
+    if k10 < 6:
+        raise AnalysisBroken('R19.10: only %d key stores found in DataSet / ClassSet' % k10)
